@@ -135,6 +135,13 @@ static Boolean MayShort(Integer Arg) {
     return ((Arg >= -128) && (Arg < 127));
 }
 
+/* an explicitly requested 8-bit offset may use the full range; MayShort()
+   only steers the automatic size selection (frozen by the test suite) */
+
+static Boolean FitsShort(Integer Arg) {
+    return ((Arg >= -128) && (Arg <= 127));
+}
+
 static Boolean IsZeroOrEmpty(tStrComp const* pArg) {
     Boolean OK;
     LongInt Value;
@@ -416,7 +423,7 @@ static void DecodeAdr(int ArgStartIdx, int ArgEndIdx, unsigned OpcodeLen) {
         /* 8-Bit-Displacement */
 
         else if ((ZeroMode == 2) || ((ZeroMode == 0) && (MayShort(AdrInt)))) {
-            if (!MayShort(AdrInt)) {
+            if (!FitsShort(AdrInt)) {
                 WrError(ErrNum_NoShortAddr);
             } else {
                 AdrMode = ModInd;
@@ -492,7 +499,7 @@ static void DecodeAdr(int ArgStartIdx, int ArgEndIdx, unsigned OpcodeLen) {
             }
 
             else if ((ZeroMode == 2) || ((ZeroMode == 0) && MayShort(AdrInt))) {
-                if (!MayShort(AdrInt)) {
+                if (!FitsShort(AdrInt)) {
                     WrError(ErrNum_OverRange);
                 } else {
                     AdrCnt = 2;
